@@ -227,6 +227,24 @@ def calling_fails(ctx, case):
         if vf is not None and vi is not None and np.all(np.isfinite(vf)) and (vi.shape != vf.shape or not ok(vf, vi)):
             return 'calling-int-%s: nthderiv.%s at the integer points %s given as an int array differs from the float call (n=%d): %s vs %s' % (
                 case['fn'], case['fn'], ipts.tolist(), n, vi.tolist(), vf.tolist())
+    # array-valued parameters (SciPy's polygamma / hyperu broadcast them): entry k is the n-th derivative for parameter k
+    if case['fn'] in ('polygamma', 'hyperu'):
+        f = getattr(nd, case['fn'])
+        try:
+            with np.errstate(all='ignore'):
+                if case['fn'] == 'polygamma':
+                    ms = np.array([0, case['m'], 2][:xs.size])
+                    va = np.array(f(ms, xs.copy(), n=n), dtype=float)
+                    vs = np.array([float(f(int(m_), xs[k:k + 1].copy(), n=n)[0]) for k, m_ in enumerate(ms)])
+                else:
+                    as_ = np.array([case['a'], 0.5, 1.5][:xs.size])
+                    va = np.array(f(as_, case['b'], xs.copy(), n=n), dtype=float)
+                    vs = np.array([float(f(float(a_), case['b'], xs[k:k + 1].copy(), n=n)[0]) for k, a_ in enumerate(as_)])
+        except Exception as ex:
+            return 'calling-param-array-exception-%s: an array-valued parameter raised %s (n=%d)' % (case['fn'], type(ex).__name__, n)
+        if np.all(np.isfinite(vs)) and (va.shape != vs.shape or not ok(va, vs)):
+            return 'calling-param-array-%s: with an array-valued parameter entry k is not the n-th derivative for parameter k (n=%d): %s vs %s' % (
+                case['fn'], n, va.tolist(), vs.tolist())
     if not ok(a, b):
         return 'calling-out-%s: nthderiv.%s(x, out=o, n=%d) differs from the value returned without out' % (case['fn'], case['fn'], n)
     if not ok(a, c):
@@ -266,3 +284,17 @@ def run(ctx):
         r = calling_fails(ctx, cc)
         if r:
             ctx.report(cc, 'failure', r)
+    # the parameterised functions at every low order (array-valued parameters mixing order 0 with higher orders)
+    for name in ('polygamma', 'hyperu'):
+        for n_ in (0, 1, 2):
+            for m_ in (0, 1, 3):
+                case = gen_case(ctx.rng, ctx.tier, name)
+                case['n'] = n_
+                if name == 'polygamma':
+                    case['m'] = m_
+                cc = dict(case, calling=True, seed=ctx.rng.randrange(1 << 30))
+                ctx.evaluations += 1
+                ctx.count('calling-param-array')
+                r = calling_fails(ctx, cc)
+                if r:
+                    ctx.report(cc, 'failure', r)
